@@ -19,29 +19,38 @@ Proof.
   rewrite forallb_forall in H. specialize (H r Hin). rewrite Hg in H. exact H.
 Qed.
 
-Lemma pinned_recorded : recorded_all_disagree pinned_schema_tbl pinned_loader_tbl = true.
+Lemma pinned_recorded : recorded_all_disagree (known_F1a ++ known_F1b) pinned_schema_tbl pinned_loader_tbl = true.
 Proof. vm_compute. reflexivity. Qed.
 
-(** no stale guard: every recorded row is a row of the pinned tables on which
-    schema and loader disagree *)
-Lemma F1_rows_all_disagree :
-  forall r, In r known_F1 ->
-    In r (all_rows pinned_schema_tbl pinned_loader_tbl) /\ row_agrees pinned_schema_tbl pinned_loader_tbl r = false.
+Lemma pinned_c_recorded : recorded_all_disagree known_F1c pinned_c_schema_tbl pinned_c_loader_tbl = true.
+Proof. vm_compute. reflexivity. Qed.
+
+Lemma recorded_sound known s l :
+  recorded_all_disagree known s l = true ->
+  forall r, In r known -> In r (all_rows s l) /\ row_agrees s l r = false.
 Proof.
-  intros r Hin. assert (H := pinned_recorded). unfold recorded_all_disagree in H.
-  rewrite forallb_forall in H.
+  intros H r Hin. unfold recorded_all_disagree in H. rewrite forallb_forall in H.
   specialize (H r Hin). apply existsb_exists in H as (x & Hx & E). apply row_eqb_eq in E. subst x.
   unfold disagreements in Hx. apply filter_In in Hx as [A B]. split; [assumption|].
   apply negb_true_iff. assumption.
 Qed.
+
+(** no stale guard: every recorded row is a row of the pinned tables on which
+    schema and loader disagree (groups a and b: the tree before 80621e4; group c: 6c5864d) *)
+Lemma F1_rows_all_disagree :
+  (forall r, In r (known_F1a ++ known_F1b) ->
+     In r (all_rows pinned_schema_tbl pinned_loader_tbl) /\ row_agrees pinned_schema_tbl pinned_loader_tbl r = false) /\
+  (forall r, In r known_F1c ->
+     In r (all_rows pinned_c_schema_tbl pinned_c_loader_tbl) /\ row_agrees pinned_c_schema_tbl pinned_c_loader_tbl r = false).
+Proof. split; [apply (recorded_sound _ _ _ pinned_recorded) | apply (recorded_sound _ _ _ pinned_c_recorded)]. Qed.
 
 Lemma F1_refuted :
   exists r, In r (all_rows pinned_schema_tbl pinned_loader_tbl) /\ guard_F1 false false r = true /\
             row_agrees pinned_schema_tbl pinned_loader_tbl r = false.
 Proof.
   exists (ROpt "error_handlers" "redirect" "code").
-  destruct (F1_rows_all_disagree (ROpt "error_handlers" "redirect" "code")) as [A B].
-  { unfold known_F1, known_F1a, known_F1b. simpl. tauto. }
+  destruct (proj1 F1_rows_all_disagree (ROpt "error_handlers" "redirect" "code")) as [A B].
+  { unfold known_F1a, known_F1b. simpl. tauto. }
   split; [assumption | split; [reflexivity | assumption]].
 Qed.
 
